@@ -469,6 +469,15 @@ Check(s, e) ==
     [] e.ev = "stale" -> IF e.res.ok \/ e.res.err # "RuntimeError" THEN "FencedAfterClose"
                          ELSE IF e.called # 0 THEN "FencedAfterClose" ELSE ""
     [] e.ev = "idle_check" -> IF s.ph # "idle" THEN "H:idle-check" ELSE IF FsOf(e.disk) # s.disk THEN "FencedNoEffect" ELSE ""
+    \* C03 call log: the library moves / deletes only managed files and removes only directories a build created
+    [] e.ev = "fs" ->
+         LET pendT == IF s.ph = "build" /\ s.pend.on /\ s.pend.lk.found
+                      THEN {x.p : x \in {y \in AllRecs(<<s.pend.lk.r>>) : y.k = "bf"}} ELSE {}
+             okFile == e.p \in Managed(s) \cup pendT
+             okDir == e.p \in s.rec.cdirs \/ (s.ph \in {"build", "start"} /\ ~IsDir(s.pre, e.p))
+                      \/ (s.ph = "start" /\ ~IsDir(s.disk, e.p))
+         IN IF e.call = "rmdir" THEN (IF okDir THEN "" ELSE "ForeignUntouched")
+            ELSE (IF okFile \/ IsDir(IF s.ph = "idle" THEN s.disk ELSE s.pre, e.p) THEN "" ELSE "ForeignUntouched")
     [] e.ev = "par_fail" -> IF e.deadlock THEN "NoDeadlock" ELSE "NoSpuriousException"
     [] OTHER -> "H:unknown-event"
 
